@@ -561,6 +561,40 @@ class _Gen(object):
         return self.t_string('elem')
 
     def t_container(self, where, depth=0):
+        # "Twins": the compiler deduplicates complex type blobs through a textual key (girnode.c serialize_type),
+        # so two types of one namespace that differ in a single feature are what exposes a feature missing from
+        # that key. Every container drawn at top level is remembered per position; about one in five is a copy
+        # of an earlier one with exactly one feature changed.
+        if depth == 0:
+            pool = self.__dict__.setdefault('_twin_pool', {}).setdefault(where, [])
+            if pool and self.chance(3):
+                import copy
+                T = copy.deepcopy(self.pick(pool))
+                if T['t'] == 'array':
+                    m = self.i(0, 3)
+                    if m == 0 or T['akind'] != 'C':
+                        T['zt'] = self.pick([x for x in (None, '0', '1') if x != T.get('zt')])
+                    elif m == 1 and T.get('fixed') is not None:
+                        T['fixed'] = self.pick([x for x in (1, 2, 3, 16, 255, 65535) if x != T['fixed']])
+                    elif m == 2 and T.get('fixed') is None and not T.get('_want_length'):
+                        T['fixed'] = self.pick([1, 2, 3, 16])
+                    else:
+                        T['zt'] = self.pick([x for x in (None, '0', '1') if x != T.get('zt')])
+                elif T['t'] == 'list':
+                    T['name'] = 'GLib.SList' if T['name'] == 'GLib.List' else 'GLib.List'
+                    if T.get('ctype'):
+                        T['ctype'] = T['ctype'].replace('GSList', 'GList') if T['name'] == 'GLib.List' else T['ctype'].replace('GList', 'GSList')
+                elif T['t'] == 'hash' and T.get('kv'):
+                    T['kv'][0] = self.pick([self.t_string('elem'), self.t_pointer('elem'), self.t_basic('elem', ['gint', 'guint'])])
+                return T
+            T = self._t_container(where, depth)
+            if len(pool) < 12:
+                import copy
+                pool.append(copy.deepcopy(T))
+            return T
+        return self._t_container(where, depth)
+
+    def _t_container(self, where, depth=0):
         r = self.i(0, 9)
         stars = '*' * (1 + (1 if where == 'out' else 0))
         nc = self.chance(1)
